@@ -34,6 +34,16 @@ def r5(repo, run):
     if not clears:
         other = [unparse(c) for c in calls_in(fi.node) if unparse(recv_of(c) or ast.Name(id='')) == var]
         probs.append('the fetched node is not emptied with %s.clear() (calls on it: %s)' % (var, other))
+    else:
+        from .. import cfg as cfgmod
+        from .common import cfg_of
+        g = cfg_of(fi)
+        seen, _ = cfgmod.must_have_seen(g, lambda c: is_method_call(c, recv=var, member='clear', ayns=False) and not c.args)
+        for r in rets:
+            rn = [x for x in g.nodes if x.ast is r]
+            if rn and not seen[rn[0].id]:
+                other = sorted({unparse(c)[:70] for c in calls_in(fi.node) if unparse(recv_of(c) or ast.Name(id='')) in (var, var + '.ayns') and not (is_method_call(c, recv=var, member='clear', ayns=False))})
+                probs.append('%s.clear() is not executed on every path to the return (other operations on the node: %s): the container is not always left empty' % (var, other))
     if len(rets) != 1 or norm(rets[0].value) != var:
         probs.append('does not return the fetched node itself (kind must be preserved)')
     if norm(fetch[0].value.args[0]) != path:
@@ -52,7 +62,26 @@ def r5(repo, run):
             run.ok('C04.R5', c, '%s.clear empties child map and %s storage' % (cls, base))
 
 
+def r3b(repo, run):
+    """the counterpart of an older entry inside the deleting node is the deepest *existing* node along its path"""
+    fi = repo.func('ComposedNode.ayns.get_first_not_missing_node')
+    looks = [c for c in calls_in(fi.node) if is_method_call(c, recv='self', member='get_node', ayns=True)]
+    if len(looks) != 1:
+        raise AnalysisError('get_first_not_missing_node: lookup not recognised')
+    c = looks[0]
+    from .common import get_kw
+    inc, inter = get_kw(c, 'incomplete'), get_kw(c, 'intermediate')
+    pops = [x for x in calls_in(fi.node) if is_method_call(x, member='pop', ayns=False) and not x.args]
+    if isinstance(inc, ast.Constant) and inc.value is True and isinstance(inter, ast.Constant) and inter.value is True and pops:
+        run.ok('C04.R3', (fi.file, c.lineno, fi.qualname), unparse(c)[:100] + ' ; nodes.pop() of the missing tail', 'returns the deepest existing node on the path')
+    elif isinstance(inc, ast.Constant) and inc.value is None:
+        run.violation('C04.R3', fi, unparse(c), 'when the path does not fully exist the lookup gives up (incomplete=None) and falls back to the start node instead of the deepest existing ancestor: an older entry is then compared with the deleting node itself, not with its real counterpart (e.g. a !weak intermediate node)', node=c)
+    else:
+        raise AnalysisError('get_first_not_missing_node: idiom not recognised (incomplete=%s)' % (norm(inc) if inc is not None else None))
+
+
 def check(repo, run, tier):
+    r3b(repo, run)
     pr.typed_lookups(repo, run, 'C04.R1')
     pr.removed_set_bases(repo, run, 'C04.R1')
     mr.delete_resolution(repo, run, 'C04.R2')
@@ -77,6 +106,8 @@ def mutants(repo):
         Mutant('replacement-loses-ties', lambda r: in_func(r, 'ComposedNode.ayns.on_merge_impl', "if not self._children and other.ayns.has_priority_over(self, if_equal=True):", "if not self._children and other.ayns.has_priority_over(self):"), ['C04.R3']),
         Mutant('removal-on-effective-delete', lambda r: in_func(r, 'ComposedNode.ayns.on_merge_impl', "and value.ayns.explicit_delete:", "and value.ayns.delete:"), ['C04.R4']),
         Mutant('clear-keeps-forced', lambda r: in_func(r, 'ClearNode.ayns.on_premerge_impl', "node.clear()", "node.ayns.filter_nodes(lambda p, child: child.ayns.has_priority_over(self))"), ['C04.R5']),
+        Mutant('clear-only-for-leaves', lambda r: in_func(r, 'ClearNode.ayns.on_premerge_impl', "        node.clear()\n", "        if not node.ayns.is_leaf:\n            node.ayns.filter_nodes(lambda p, child: child.ayns.has_priority_over(self), prefix=path)\n        else:\n            node.clear()\n"), ['C04.R5']),
+        Mutant('counterpart-falls-back-to-root', lambda r: in_func(r, 'ComposedNode.ayns.get_first_not_missing_node', "incomplete=True)", "incomplete=None)"), ['C04.R3']),
         Mutant('clear-returns-new-dict', lambda r: in_func(r, 'ClearNode.ayns.on_premerge_impl', "        node.clear()\n        return node", "        node.clear()\n        return type(node)()"), ['C04.R5']),
         Mutant('del-tag-merges', lambda r: in_func(r, 'yaml._del_constructor', "'delete': True", "'delete': False"), ['C04.R6']),
         Mutant('neutral-prefix-len-inline', lambda r: in_func(r, 'ComposedNode.ayns.on_merge_impl', "path[_prefix_len:]", "path[len(prefix_):]") if False else
